@@ -136,7 +136,7 @@ CONFIGS = {
     "quick": [
         dict(consts=dict(NP=3, CPI=2, MaxH=5, MaxSteps=9, MaxReorgs=1, MaxRb=3, MaxExt=1, MaxExtN=2,
                          RbDepths="{1, 3}", EnvFree=False, EnvLean=True),
-             core=True, sampled=3, walks=0),
+             core=True, sampled=2, walks=0),
     ],
     "thorough": [
         # longer chain (3.5 intervals), every rollback depth, new headers at every wait
@@ -185,8 +185,8 @@ def my_drift(pf, observed):
     return n_steps, n_drift, samples
 
 
-def race_scenarios(tier):
-    bts = (3,) if tier == "quick" else (3, 4)
+def race_scenarios(tier, bts=None):
+    bts = bts or ((3,) if tier == "quick" else (3, 4))
     out = []
     for bt in bts:
         for ft in range(1, bt):
@@ -222,20 +222,24 @@ def race_phase(tier, rng, sc, first_id):
         switches, replayed as schedules only.
     Returns (path lines, number of predicted paths, info, edges, totals)."""
     scen = race_scenarios(tier)
-    defs = "RScenSet == {%s}" % ", ".join(scen)
     lines, info, edges, tot = [], {}, [], _Sum()
     n_pred = 0
-    for mutex, maxcs in ((RACE_MUTEX, 99), (not RACE_MUTEX, 1 if tier == "quick" else 2)):
+    runs = [(RACE_MUTEX, 99, scen), (not RACE_MUTEX, 1, scen)]
+    if tier != "quick":
+        # two context switches only on the shorter chain (22 000 schedules otherwise)
+        runs.append((not RACE_MUTEX, 2, race_scenarios(tier, (3,))))
+    for ri, (mutex, maxcs, rscen) in enumerate(runs):
         predicted = mutex == RACE_MUTEX
+        defs = "RScenSet == {%s}" % ", ".join(rscen)
         tlc = core.run_tlc([SPEC], "CFRace", dict(Mutex=mutex, MaxCS=maxcs), workers=1,
                            invariants=["TypeOK"] + (["NoViolation"] if mutex else []),
                            cfg_extra="CONSTANT RScen <- RScenSet", extra_defs=defs,
-                           workdir=os.path.join(sc, "race%d" % mutex), timeout=900)
+                           workdir=os.path.join(sc, "race%d" % ri), timeout=900)
         if not tlc.ok:
             raise core.MachineryError("TLC on CFRace failed: %s\n%s" % (tlc.error, tlc.stdout_tail[-3000:]))
         g = core.Graph.load(tlc)
         pp = core.edge_cover(g, rng)[0] if predicted else all_maximal_paths(g)
-        tmp = os.path.join(sc, "racepaths%d.ndjson" % mutex)
+        tmp = os.path.join(sc, "racepaths%d.ndjson" % ri)
         core.write_paths(g, pp, tmp)
         for line in open(tmp):
             d = json.loads(line)
@@ -247,10 +251,10 @@ def race_phase(tier, rng, sc, first_id):
             n_pred = len(pp)
             edges = g.edges
             tot.generated, tot.distinct, tot.depth, tot.wall = tlc.generated, tlc.distinct, tlc.depth, tlc.wall
-        info["mutex_%s" % str(mutex).lower()] = {
+        info["mutex_%s_cs%d" % (str(mutex).lower(), maxcs)] = {
             "states": tlc.distinct, "edges": len(g.edges), "paths": len(pp), "max_context_switches": maxcs,
             "model_violating_edges": sum(1 for e in g.edges if e[4]), "predicts_the_code": predicted}
-        shutil.rmtree(os.path.join(sc, "race%d" % mutex), ignore_errors=True)
+        shutil.rmtree(os.path.join(sc, "race%d" % ri), ignore_errors=True)
     info["scenarios"] = len(scen)
     return lines, n_pred, info, edges, tot
 
